@@ -65,7 +65,11 @@ impl ContentPack {
     }
 
     fn get_cluster(&self, cluster_index: ClusterIdx) -> Result<Arc<Cluster>> {
+        #[cfg(jubako_verif)]
+        crate::verif::point("cp.cluster.pre", cluster_index.into_u64(), 0);
         let mut cache = self.cluster_cache.lock().unwrap();
+        #[cfg(jubako_verif)]
+        crate::verif::point("cp.cluster.locked", cluster_index.into_u64(), 0);
         let cached = cache.try_get_or_insert(cluster_index, || self._get_cluster(cluster_index))?;
         Ok(cached.clone())
     }
